@@ -52,7 +52,7 @@ try:
         rc, o = sh("go test -vet=off -count=1 -timeout 20m ./... 2>&1 | tail -8", wt)
         res["suite_with_patch"] = {"rc": rc, "tail": o[-600:]}
         # regenerate a patch against current HEAD
-        rc, o = sh("git diff", wt)
+        rc, o = sh("git diff HEAD", wt)
         res["patch_vs_head"] = o
     ok = (res.get("demo_without_patch", {}).get("rc") == 0 and res.get("apply", {}).get("rc") == 0 and res.get("build", {}).get("rc") == 0
           and res.get("demo_with_patch", {}).get("rc") not in (0, None) and res.get("suite_with_patch", {}).get("rc") == 0
